@@ -6,7 +6,7 @@ import time
 
 from facts import VERIF, AnalysisBroken
 
-EVIDENCE = os.path.join(VERIF, 'evidence')
+EVIDENCE = os.environ.get('VERIF_EVIDENCE_DIR') or os.path.join(VERIF, 'evidence')
 REPLAY = os.path.join(EVIDENCE, 'replay')
 KNOWN = os.path.join(VERIF, 'known_findings.json')
 
@@ -145,6 +145,22 @@ class Check:
                       + (f' [{v["at"]}]' if v.get('at') else ''))
                 print(f'VIOLATION property={self.pid} replay={path}')
             rc = 1
+        if rc == 0 and self.tier == 'thorough' and not os.environ.get('VERIF_CONTROL'):
+            import controls as controlsmod
+            res = controlsmod.run_controls(self.pid)
+            self.extra['controls'] = res
+            fired = [r for r in res if r['verdict'] == 'fired']
+            missed = [r for r in res if r['verdict'] == 'missed']
+            stale = [r for r in res if r['verdict'] not in ('fired', 'missed')]
+            print(f'[{self.pid}]   controls: {len(fired)} fired, {len(missed)} missed, {len(stale)} stale/skipped '
+                  f'(seeded violations applied to a scratch copy of the repository)')
+            for r in missed:
+                print(f'[{self.pid}]   CONTROL MISSED: {r["name"]} (expected rule {r["expect"]}) -> the checker is broken')
+            if missed:
+                self._write_evidence(time.time() - self.t0, total, distinct, unlisted, listed)
+                print(f'[{self.pid}] ANALYSIS BROKEN (exit 2): a seeded violation is no longer detected')
+                return 2
+            wall = time.time() - self.t0
         self._write_evidence(wall, total, distinct, unlisted, listed)
         print(f'[{self.pid}] {total} rule instances ({distinct} distinct), {len(self.violations)} failing '
               f'({len(listed)} known finding(s)), {wall:.1f}s -> exit {rc}')
